@@ -108,6 +108,10 @@ def explore(mod, tier: str) -> int:
         "known_findings_matched": dict(outcome.findings.matched),
         "skipped": agg["skipped"],
     }
+    cov["interleavings"] = {"measure": getattr(mod, "INTERLEAVING_MEASURE",
+                                               "distinct event-log digests: each is one complete history / schedule / fault sequence "
+                                               "as executed (operations, arguments, observed results)"),
+                            "distinct": len(agg["digests"]), "possible": None}
     extra = mod.evidence_extra(agg) if hasattr(mod, "evidence_extra") else {}
     cov.update(extra)
     core.write_evidence(mod.PROP, tier, base, mod.LEVEL, cov, wall, len(outcome.violations), mod.ASSUMPTIONS)
